@@ -31,6 +31,7 @@ type hCall struct {
 	Op    Op
 	Doc   []byte // mdop
 	Prep  string // verify: state of the directory (exact | empty)
+	ShareOpt bool // massive calls: use the history's one shared WithMassive option value
 	Model *MNode // op: clone of the tree's model at call time (what the result must be a function of)
 	// results
 	Res *opResult
@@ -84,6 +85,9 @@ func (r *opResult) diff(o *opResult) string {
 	}
 	return ""
 }
+
+// sharedMassiveOpt is the one WithMassive option value of the history being run.
+var sharedMassiveOpt gtree.Option
 
 type liveTree struct {
 	root  *gtree.Node
@@ -187,6 +191,14 @@ func execCall(h *hCall, root *gtree.Node, jail string, idx int, yield bool, rw *
 	}
 	ctx := context.Background()
 	opts := opOptions(h.Op, ctx, target)
+	if h.ShareOpt && h.Op.Massive && sharedMassiveOpt != nil && yield {
+		// the same Option value as other calls of this history use (options are often built once)
+		for i, o := range opts {
+			if i == 0 && o != nil {
+				opts[0] = sharedMassiveOpt
+			}
+		}
+	}
 	if rw != nil {
 		rw.byTask[taskID] = wr
 	}
@@ -291,6 +303,8 @@ func runHistory(c *Ctx, name string, calls []*hCall, nTasks int, sim bool, jail 
 			d.Yield = true
 			simfs.Install(d)
 			defer simfs.Uninstall()
+			sharedMassiveOpt = gtree.WithMassive(context.Background())
+			defer func() { sharedMassiveOpt = nil }()
 			rw := &routeWriter{byTask: map[string]io.Writer{}}
 			old := color.Output
 			color.Output = rw
@@ -481,7 +495,7 @@ func genHistory(c *Ctx, o histOpts) (calls []*hCall, nTasks int, nontrivial bool
 			ti := c.Draw(len(trees))
 			t := trees[ti]
 			op := genFromRootOp(c, true)
-			h := &hCall{Kind: "op", Task: t.owner, Tree: ti, Op: op, Model: t.model.Clone()}
+			h := &hCall{Kind: "op", Task: t.owner, Tree: ti, Op: op, Model: t.model.Clone(), ShareOpt: op.Massive && !op.NilCtx && c.Draw(2) == 0}
 			if op.Kind == "verify" {
 				h.Prep = []string{"exact", "empty"}[c.Draw(2)]
 			}
@@ -511,7 +525,7 @@ func genHistory(c *Ctx, o histOpts) (calls []*hCall, nTasks int, nontrivial bool
 				massive = false
 			}
 			op := genOp(c, massive)
-			h := &hCall{Kind: "mdop", Task: c.Draw(nTasks), Op: op, Doc: doc}
+			h := &hCall{Kind: "mdop", Task: c.Draw(nTasks), Op: op, Doc: doc, ShareOpt: op.Massive && !op.NilCtx && c.Draw(2) == 0}
 			if op.Kind == "verify" {
 				h.Prep = "empty"
 			}
